@@ -3607,19 +3607,22 @@ def replay_clause_reports(a):
         ("a >= 3", "Binary", "/a", 1, ("", 3), "Ge", False), ("m.k <= a", "Binary", "/m/k", 7, ("/a", 1), "Le", False),
         ("s is_list", "Unary", "/s", "x", None, "IsList", False), ("a !exists", "Unary", "/a", 1, None, "Exists", True),
         ("l empty", "Unary", "/l", [5, 6], None, "Empty", False), ("a is_string", "Unary", "/a", 1, None, "IsString", False),
+        # not comparable with the right-hand side: still the clause's own message
+        ("s >= 3", "Binary", "/s", "x", ("", 3), "Ge", False), ("a == \"x\"", "Binary", "/a", 1, ("", "x"), "Eq", False),
     ]
     out = []
     for clause, kind, fpath, fval, to, op, neg in cases:
-        rc, rep, err = a.run_structured(exe, f"rule t {{\n  {clause}\n}}\n", [data])
+        rc, rep, err = a.run_structured(exe, f"rule t {{\n  {clause} <<the clause's message>>\n}}\n", [data])
         if not (rep and isinstance(rep, list) and rep):
             out.append({"clause": clause, "problem": "no report", "exit": rc, "stderr": (err or "")[-200:]})
             continue
-        found = []
+        found, msgs = [], []
 
         def walk(o):
             if isinstance(o, dict):
                 if kind in o and isinstance(o[kind], dict) and "check" in o[kind]:
                     found.append(o[kind]["check"])
+                    msgs.append((o[kind].get("messages") or {}).get("custom_message"))
                 for v in o.values():
                     walk(v)
             elif isinstance(o, list):
@@ -3639,6 +3642,8 @@ def replay_clause_reports(a):
             ok = v.get("path") == fpath and v.get("value") == fval and cmpv == [op, neg]
         if not ok:
             out.append({"clause": clause, "expected": {"from": [fpath, fval], "to": to, "comparison": [op, neg]}, "reported": chk})
+        elif (msgs[0] or "").strip() != "the clause's message":
+            out.append({"clause": clause, "expected_custom_message": "the clause's message", "reported_custom_message": msgs[0]})
     return {"reproduced": bool(out), "mismatches": out[:4], "document": data}
 
 
